@@ -13,8 +13,9 @@ def _concretize_shapes():
 
     def conc(x):
         if isinstance(x, SymArray):
-            from .arrays import concretize_array
-            return concretize_array(x)
+            from .arrays import concretize_array, wrap_real, has_sym
+            # concrete values, but still a SymArray: a real ndarray indexed by a symbolic mask would hand the mask to NumPy
+            return wrap_real(concretize_array(x)) if has_sym(x) else x
         if isinstance(x, SV):
             return int(x)
         return x
